@@ -128,10 +128,10 @@ Section QasmProofs.
       mscale O (bh * ch) (mprod O 2 [spec_ZPow O ch chc chc; spec_YPow O a ac ac; spec_ZPow O bh bhc bhc])
       = q_u3 O a ac (bh * bh) (ch * ch).
     Proof. mat_entries close3. Qed.
-    (* angles are reduced mod 2 half turns: theta + 2 pi changes the sign of a, a global sign of the matrix *)
-    Theorem qasm_u3_theta_period b c : q_u3 O (- a) (- ac) b c = mscale O (- z1) (q_u3 O a ac b c).
-    Proof. mat_entries close3. Qed.
   End U3.
+  (* angles are reduced mod 2 half turns: theta + 2 pi changes the sign of a, a global sign of the matrix *)
+  Theorem qasm_u3_theta_period a ac b c : q_u3 O (- a) (- ac) b c = mscale O (- z1) (q_u3 O a ac b c).
+  Proof. mat_entries close. Qed.
   Section Phased.
     Variables f fc r rc g : K.
     Hypothesis Uf : f * fc = z1.
